@@ -243,6 +243,8 @@ class Uranium(FuelMaterial):
 
         self.setMassFrac("U235", u235.weight * u235.abundance / gramsIn1Mol)
         self.setMassFrac("U238", u238.weight * u238Abundance / gramsIn1Mol)
+        # Material.__init__ sets the instance attribute refDens = 0.0, which hides the class value
+        self.refDens = Uranium.refDens
 
     def applyInputParams(
         self, U235_wt_frac: float = None, TD_frac: float = None, *args, **kwargs
